@@ -2,7 +2,7 @@
 """keep_seed.py Cxx N slug "needs" "caught_by" : store a confirmed seeded change under /verif/seeded/<slug>/"""
 import json, os, shutil, sys, subprocess
 P, N, slug, needs, caught = sys.argv[1:6]
-src = '/tmp/seed/%s/_seed' % P
+src = os.environ.get('SEEDROOT', '/tmp/seed2') + '/%s/_seed' % P
 dst = '/verif/seeded/%s' % slug
 os.makedirs(dst, exist_ok=True)
 shutil.copy('%s/patch%s.diff' % (src, N), dst + '/patch.diff')
